@@ -111,7 +111,7 @@ def run(chk):
     recs = []
     unresolved = 0
     for (raw, deg, _), (rec, unres) in zip(ejobs, eres):
-        if unres:
+        if unres and not rec.get("offgrid"):
             unresolved += 1
             chk.diag(f"exact recovery unresolved ({unres} numbers) raw={raw} deg={deg}")
             continue
